@@ -18,8 +18,9 @@ RULE = ("muhash: MuHash3072 register-machine cases (insert/remove/combine/finali
 ASSUMPTIONS = ["the MuHash elements in play are invertible modulo 2^3072-1103717 (premise `invertible` of the theorems; the C++ never checks "
                "for a zero element; true for every non-zero residue if the modulus is prime, which is not proved)",
                "SHA256 / ChaCha20 are the committed models of the crypto family (CryptoSHA256.v, CryptoChaCha.v), tied by C49/C10",
-               "index theorems: histories without an unclean index restart after an uncommitted reorg (that corner is the finding "
-               "C21-revert-fallback: proved as a _refuted theorem and replayed on the real code); notifications delivered in order",
+               "index theorems are about CustomAppend / CustomRemove histories of one index object; restarts are covered by the correspondence "
+               "(RESTART_CASES are generated on every run) and by vm_compute witnesses; BlockFilterIndex cannot restart after an uncommitted "
+               "reorg (open known finding, why_prefix `fail restart-init`); notifications delivered in order",
                "ledger validity of the history (every spent coin exists with the recorded undo data, no outpoint created twice) is a premise "
                "of index_eq_recompute; the drivers' histories are validated by the real ConnectBlock",
                "the BIP158 filter of a block is taken from the reference BlockFilter code (GCS construction is C51); the SipHash key prefix "
@@ -223,7 +224,7 @@ def _history(rng, nops, allow_restart):
             ops.append("flush"); dirty = False
         elif r < 0.85 and allow_restart and not down:
             # always commit before the index object goes away: a start may have synced blocks whose commit was skipped
-            # (Commit requires the index tip to be an ancestor of the last flushed block), see FINDING_CASES
+            # (Commit requires the index tip to be an ancestor of the last flushed block), see RESTART_CASES
             ops.append("flush"); dirty = False
             ops.append("stop"); down = True
         else:
@@ -236,15 +237,17 @@ def _history(rng, nops, allow_restart):
     return ops
 
 
-FINDING_CASES = [
-    # C21-revert-fallback: index restart after a reorg that was not committed (unclean shutdown):
-    # CoinStatsIndex::RevertBlock reads the hash-index entry into a std::pair<uint256, DBVal> and always fails -> FatalErrorf;
-    # BlockFilterIndex::CustomInit / CustomRemove read the height index only -> Init fails
+RESTART_CASES = [
+    # index restart after a reorg >= 2 deep that was not committed (unclean shutdown).  CoinStatsIndex: RevertBlock falls back to the
+    # hash index; since /repo commit b3a3ee2 it reads the bare DBVal and the index follows the active chain (before: FatalErrorf,
+    # finding C21-revert-fallback, repaired; a regression is a `fail fatal` VIOLATION)
     "ix start:c mine:2 flush inval:2 mine:3 stop start:c chk",
-    "ix start:f mine:2 flush inval:2 mine:3 stop start:f chk",
     # the same after a clean stop: reorg while the index is down, restart (the index syncs across the reorg but its commit is
     # skipped because the chainstate was not flushed since), second restart
     "ix start:c flush stop inval:2 mine:3 start:c chk stop start:c chk",
+    # OPEN finding (known_findings.json, why_prefix "fail restart-init"): BlockFilterIndex::CustomInit reads the height index only
+    # (ReadFilterHeader) and refuses to start in the same history
+    "ix start:f mine:2 flush inval:2 mine:3 stop start:f chk",
 ]
 
 
@@ -264,9 +267,7 @@ def gen_index(rng, tier):
     for _ in range(n):          # one index at a time
         w = rng.choice(["c", "t", "f", "cf"])
         cases.append("ix start:%s %s inval:1 mine:2 chk flush stop mine:1 start:%s chk" % (w, _block(rng), w))
-    if os.environ.get("VERIF_C21_FINDING") == "1":
-        cases = FINDING_CASES + cases
-    return cases
+    return RESTART_CASES + cases
 
 
 TIES = [ParTie("muhash_fn", "tie/drivers/muhash_drv.cpp", "Extract_MuHash.v", "muhash_driver.ml", gen_muhash, predicate="functional"),
@@ -280,9 +281,11 @@ LEVEL_TEXT = ("Coq theorems about executable transcriptions of MuHash3072 (Z ari
               "current chain from genesis, CustomRemove undoes CustomAppend exactly, and LookUpStats of every block of the chain agrees with "
               "ComputeUTXOStats(MUHASH) from scratch over the chain's UTXO set (digest via the MuHash multiset theorem, output count, bogo size, "
               "amount, with the C++ wraps modelled). BaseIndex (Init/Sync/Rewind/BlockConnected/ChainStateFlushed/Commit), TxIndex and "
-              "BlockFilterIndex are executable models tied by differential execution; the corner where the property is false of the code "
-              "(index restart after an uncommitted reorg two or more blocks deep) is a _refuted theorem with vm_compute witnesses, replayed "
-              "on the real classes. Models run against the real classes on generated cases; the index model is fed the blocks, undo data and "
+              "BlockFilterIndex are executable models tied by differential execution (BlockFilterIndex also has the header-chain theorem over "
+              "all append/remove histories). Index restart after an uncommitted reorg two or more blocks deep: vm_compute witnesses show the "
+              "coin statistics index recovering on the current code and aborting before /repo commit b3a3ee2 (old-code definition "
+              "cs_remove_prefix_b3a3ee2), and the block filter index refusing to start (_refuted theorem, open known finding); the three "
+              "histories are replayed on the real classes on every run. Models run against the real classes on generated cases; the index model is fed the blocks, undo data and "
               "notifications recorded from a real regtest node.")
 LEVEL_NOTE = ("Trusted: Coq kernel, extraction + driver glue, the SHA256/ChaCha20 models of the crypto family. Not proved (full statement kept as a "
               "comment in Properties_C21.v): index_follows_active_chain for the generic BaseIndex model with restarts and sync steps, and the "
@@ -290,7 +293,8 @@ LEVEL_NOTE = ("Trusted: Coq kernel, extraction + driver glue, the SHA256/ChaCha2
               "while the index is down, late start). Not modelled: Num3072 limb arithmetic and the safegcd limbs (the model computes the canonical "
               "residue in Z; boundary values are exercised through Unserialize), thread hand-off between validation, scheduler and sync "
               "threads, interruption of Sync in the middle, the 30 s periodic commit inside Sync, filter flat files, SipHash prefixes of txindex "
-              "keys, TxoSpenderIndex. IsBIP30Unspendable is transcribed but cannot be exercised on regtest. Finding C21-revert-fallback is "
-              "reproduced with VERIF_C21_FINDING=1 (cases FINDING_CASES); it is excluded from the default generators, which always flush "
-              "before stopping an index.")
+              "keys, TxoSpenderIndex. IsBIP30Unspendable is transcribed but cannot be exercised on regtest. The model describes the code at /repo "
+              "commit b3a3ee2 (RevertBlock reads the hash-index fallback entry as a bare DBVal); the theorem half about the failing restart is "
+              "about the PRE-FIX code and names its definition cs_remove_prefix_b3a3ee2. The positive statement for coinstats with restarts is "
+              "a witness on one history, not a theorem over all histories.")
 TECHNIQUE = "Coq proof (modular arithmetic, permutation/multiset reasoning, induction over histories, vm_compute witnesses) + differential correspondence on a real regtest node"
